@@ -6,8 +6,14 @@ use crate::{
     },
     stat, system_metric,
 };
+#[cfg(not(sentinel_verif))]
 use lazy_static::lazy_static;
+#[cfg(sentinel_verif)]
+use sentinel_verif_rt::lazy_static;
+#[cfg(not(sentinel_verif))]
 use std::sync::Arc;
+#[cfg(sentinel_verif)]
+use sentinel_verif_rt::sync::Arc;
 
 const RULE_CHECK_SLOT_ORDER: u32 = 1000;
 
